@@ -307,7 +307,7 @@ class Check:
             if argv[i] == "--tier":
                 self.tier = argv[i + 1]; i += 1
             elif argv[i] == "--replay":
-                self.replay_in = argv[i + 1]; i += 1
+                self.replay_in = os.path.abspath(argv[i + 1]); i += 1   # harnesses run in their own directory
             i += 1
         if self.tier not in ("quick", "thorough"):
             self.tier = "quick"
